@@ -21,7 +21,8 @@ from checks.common import jcopy, short
 ALLOW = ('all', 'remote', 'local', 'sandbox', 'none')
 MECHANISMS = ('include', 'import', 'redefine', 'override', 'chained', 'locations_arg', 'uri_mapper_dict',
               'uri_mapper_call', 'hint_iter_errors', 'hint_validate', 'fallback_absent', 'fallback_illformed',
-              'fallback_404', 'fallback_timeout', 'wildcard_load_namespace', 'xmldocument_parse')
+              'fallback_404', 'fallback_timeout', 'wildcard_load_namespace', 'xmldocument_parse',
+              'hint_to_dict', 'hint_fetch_schema')
 MAIN_KINDS = ('path', 'fileurl', 'remote', 'text_base', 'stream_url')
 
 # (id, spelling template relative to the main document's directory, class of the target, marker id)
@@ -196,9 +197,9 @@ class C12(Check):
             main = MAIN_KINDS[(index // len(self.points)) % len(MAIN_KINDS)]
         version = '1.1' if m == 'override' else rng.choice(['1.0', '1.1'])
         self._relbase = rng.random() < 0.25
-        if s == 'abs_other_tree_sandbox' and a == 'sandbox' and m != 'hint_validate':
+        if s == 'abs_other_tree_sandbox' and a == 'sandbox' and not m.startswith('hint_'):
             self._relbase, main = True, 'path'     # the two-step (other cwd, same relative base) case
-        if m == 'hint_validate':
+        if m in ('hint_validate', 'hint_to_dict', 'hint_fetch_schema'):
             main = 'path'      # the instance document is the main source; the schema comes from its hints
         relbase = bool(self._relbase and main in ('path', 'text_base') and a == 'sandbox')
         nobase = bool(a == 'sandbox' and main in ('path', 'fileurl') and not relbase and rng.random() < 0.5)
@@ -221,7 +222,8 @@ class C12(Check):
         counters = {}
         violations = []
         import_like = mech in ('import', 'locations_arg', 'uri_mapper_dict', 'uri_mapper_call', 'hint_iter_errors',
-                               'hint_validate', 'wildcard_load_namespace', 'xmldocument_parse') or mech.startswith('fallback')
+                               'hint_validate', 'hint_to_dict', 'hint_fetch_schema', 'wildcard_load_namespace',
+                               'xmldocument_parse') or mech.startswith('fallback')
         fname = 'imp.xsd' if import_like else 'inc.xsd'
         loc = tmpl.replace('{W}', root).replace('{F}', fname)
         remote_main = main_kind == 'remote'
@@ -325,10 +327,15 @@ class C12(Check):
         schema = None
         outcome = {'exc': None, 'msg': None, 'warnings': []}
         doc_path = None
-        if mech in ('hint_validate', 'hint_iter_errors'):
+        if mech in ('hint_validate', 'hint_iter_errors', 'hint_to_dict', 'hint_fetch_schema'):
             # written BEFORE the monitor is armed: the harness' own writes are not fetches
-            doc_path = world.write('base/sand/doc.xml', self.hint_doc(loc, main_first=mech == 'hint_validate'))
-        elif mech in ('wildcard_load_namespace', 'xmldocument_parse'):
+            doc_path = world.write('base/sand/doc.xml', self.hint_doc(loc, main_first=mech != 'hint_iter_errors'))
+        doc2_path = None
+        if mech == 'hint_fetch_schema':
+            doc2_path = world.write('base/sand/doc2.xml',
+                                    f'<t:fetched xmlns:t="{NS_T}" xmlns:xsi="http://www.w3.org/2001/XMLSchema-instance" '
+                                    f'xsi:schemaLocation="{NS_T} {loc}">1</t:fetched>')
+        if mech in ('wildcard_load_namespace', 'xmldocument_parse'):
             doc_path = world.write('base/sand/doc.xml', f'<m:root xmlns:m="{NS_MAIN}"><t:fetched xmlns:t="{NS_T}">1'
                                                         f'</t:fetched></m:root>')
         self.monitor.start([root, self.pkg_schemas] + ([root_a] if root_a else []))
@@ -336,11 +343,17 @@ class C12(Check):
             with warnings.catch_warnings(record=True) as wlist:
                 warnings.simplefilter('always')
                 try:
-                    if mech == 'hint_validate':
+                    if mech in ('hint_validate', 'hint_to_dict', 'hint_fetch_schema'):
                         vkw = {'allow': allow}
                         if allow == 'sandbox':
                             vkw['base_url'] = base_dir
-                        xmlschema.validate(doc_path, cls=cls, **vkw)
+                        if mech == 'hint_validate':
+                            xmlschema.validate(doc_path, cls=cls, **vkw)
+                        elif mech == 'hint_to_dict':
+                            outcome['data'] = repr(xmlschema.to_dict(doc_path, cls=cls, validation='lax', **vkw))[:80]
+                        else:
+                            # the hint for the target namespace only: does it get probed?
+                            outcome['url'] = xmlschema.fetch_schema(doc2_path, **vkw)
                     else:
                         schema = cls(source, **kw)
                         if mech == 'wildcard_load_namespace':
@@ -374,7 +387,7 @@ class C12(Check):
                   [('remote', u) for u in peer.log]
         sockets = [ev for ev in events if ev[0] == 'socket']
         main_real = os.path.realpath(main_path)
-        doc_real = os.path.realpath(doc_path) if doc_path else None
+        doc_real = os.path.realpath(doc2_path or doc_path) if (doc2_path or doc_path) else None
         sigbase = {'allow': allow, 'mech': mech.split('_')[0] if mech.startswith('fallback') else mech}
         beyond = 0
         target_fetched = False
@@ -399,10 +412,12 @@ class C12(Check):
                                           where.startswith(os.path.realpath(self.pkg_schemas)))
             if kind == 'local' and where.startswith(os.path.realpath(self.pkg_schemas)) and allow in ('local', 'all'):
                 ok = True
-            if is_doc and mech == 'hint_validate':
+            if is_doc and mech in ('hint_validate', 'hint_to_dict', 'hint_fetch_schema'):
                 ok = True      # the instance document handed to validate() is the main source itself
-                if allow == 'none':
+                if allow == 'none' and mech != 'hint_fetch_schema':
                     ok = False
+                # fetch_schema() documents its allow argument as "applied to location hints only": the source
+                # document it is asked to inspect is opened whatever the mode
             if not ok:
                 rel = where.replace(os.path.realpath(root), '{W}') if kind == 'local' else where
                 violations.append({'signature': dict(sigbase, clause='forbidden-fetch', fetched_class=kind,
